@@ -1,5 +1,6 @@
 import DmrVerif.Driver.Loop
+import DmrVerif.Driver.Pdu
 
-/-! model driver for property C03 (stub: no operations registered yet) -/
+/-! model driver for property C03 -/
 
-def main : IO Unit := Dmr.Driver.runMain []
+def main : IO Unit := Dmr.Driver.runMain [Dmr.Driver.pduOp]
